@@ -85,6 +85,7 @@ def cases(ctx):
     for i in range(ctx.pick(600, 24000) // ctx.shard_count):
         version = [None, *VERSIONS][i % 6]
         gen = histories.HistoryGen(rng, version)
+        gen.wide = i % 3 == 0
         yield {"version": version, "metric": bool(i % 2),
                "steps": gen.history(rng.choice([30, 60, 120, 300]), tx_rate=0.05, version_reports=0.02)}
 
